@@ -321,6 +321,8 @@ class Report:
             replay = dict(replay); replay["property"] = self.pid; replay["what"] = what
             replay["replay_cmd"] = "./check %s --replay %s" % (self.pid, path)
             with open(path, "w") as f: json.dump(replay, f, indent=1, default=str)
+            print("  what: %s" % str(what)[:600].replace("\n", " "))
+            if replay.get("observed"): print("  observed: %s" % str(replay["observed"])[:600])
             print("VIOLATION property=%s replay=%s%s" % (self.pid, path, "" if found else " no-failing-input-found"))
         sys.stdout.flush()
         return 1
